@@ -818,6 +818,7 @@ item_gen(struct item *it, const struct suite *cs, const struct suite *hs, struct
         it->h_off = it->h_len = it->h_len_bits = 0;
         it->iv_len = it->aiv_len = it->aad_len = it->tag_len = 0;
         it->have_ref = 1;
+        it->tag_unspec = 0;
         guard_reset_slot(it->slot);
 
         rng_bytes(r, it->k.ckey, sizeof it->k.ckey);
@@ -1014,6 +1015,17 @@ item_gen(struct item *it, const struct suite *cs, const struct suite *hs, struct
                         it->order = it->dir == IMB_DIR_ENCRYPT ? IMB_ORDER_HASH_CIPHER
                                                                : IMB_ORDER_CIPHER_HASH;
                         it->tag_len = 4;
+                        it->tag_unspec = 0;
+                        if (g->len < 0 || g->len >= 14) {
+                                unsigned v = rng_below(r, 16);
+                                if (v == 0) {
+                                        /* CRC switched off (msg_len_to_hash = 0): plain DOCSIS-BPI ciphering through the combined
+                                         * suite; the tag buffer is then not specified */
+                                        it->h_len = 0;
+                                        it->tag_unspec = 1;
+                                } else if (v == 1)
+                                        it->c_len = 0; /* CRC only, nothing ciphered */
+                        }
                         break;
                 }
                 case IMB_CIPHER_PON_AES_CNTR: {
@@ -1088,8 +1100,11 @@ item_gen(struct item *it, const struct suite *cs, const struct suite *hs, struct
         /* ---------------- buffers */
         uint32_t end_c = it->c_off + it->c_len, end_h = it->h_off + it->h_len;
         it->buf_len = end_c > end_h ? end_c : end_h;
-        if (aead && it->cipher == IMB_CIPHER_DOCSIS_SEC_BPI)
+        if (aead && it->cipher == IMB_CIPHER_DOCSIS_SEC_BPI) {
                 it->buf_len = it->h_off + it->h_len + 4;
+                if (it->buf_len < end_c)
+                        it->buf_len = end_c;
+        }
         if (it->cipher == IMB_CIPHER_PON_AES_CNTR)
                 it->buf_len = it->h_len;
         if (g->inplace >= 0)
@@ -1845,6 +1860,8 @@ item_output_hash(const struct item *it)
         }
         if (it->tag_len) {
                 uint32_t n = (it->cipher == IMB_CIPHER_PON_AES_CNTR && !it->pon_crc_defined) ? 4 : it->tag_len;
+                if (it->tag_unspec)
+                        n = 0;
                 for (uint32_t i = 0; i < n; i++)
                         h = (h ^ it->tag[i]) * 0x100000001b3ULL;
         }
@@ -1905,6 +1922,8 @@ item_check(struct item *it, const IMB_JOB *job, const char *prop, struct mmgr *m
         if (it->tag_len) {
                 /* PON with PLI <= 4: no CRC is computed; the CRC half of the tag is not specified */
                 uint32_t tcmp = (it->cipher == IMB_CIPHER_PON_AES_CNTR && !it->pon_crc_defined) ? 4 : it->tag_len;
+                if (it->tag_unspec)
+                        tcmp = 0;
                 long d = first_diff(it->tag, it->exp_tag, tcmp);
                 if (d >= 0) {
                         snprintf(key, sizeof key, "%s|%s|%s|tag%s", prop, v, hash_name(it->hash),
